@@ -197,7 +197,7 @@ def rule_owner(ctx) -> None:
         if isinstance(ov, ast.Name):
             ds = [d for d in rd.reaching(ov.id, n) if d.kind != "mutate"]
             ok = bool(ds) and all(d.value is not None and isinstance(d.value, ast.Call) and call_tail(d.value) == "_owner_for_query" for d in ds)
-        ctx.check(ok, "C11.OWNER", f"{t2.qual}/owner-argument@{n.lineno}", t2.loc(c), "search_tiered receives owner = owner_for_query(ctx, cfg_t2)",
+        ctx.check(ok, "C11.OWNER", ctx.okey(f"{t2.qual}/owner-argument"), t2.loc(c), "search_tiered receives owner = owner_for_query(ctx, cfg_t2)",
                   f"search_tiered is called with owner={src(ov) if ov is not None else None}, not the configured owner scope")
     ofq = ctx.func("clematis.engine.stages.t2.helpers:owner_for_query")
     ocfg = ctx.cfg(ofq)
@@ -272,12 +272,12 @@ def rule_k(ctx) -> None:
         # two idioms: test-after-append (break before the next iteration) or test-before-append (the k test dominates the append)
         pre = ("len(retrieved) >= k_retrieval", False) in cfg.facts(a) or ("len(retrieved) < k_retrieval", True) in cfg.facts(a)
         p = None if (bounded or pre) else cfg.path([a], lambda x: x in heads, avoid=lambda x: x in ktests, edge_ok=no_exc, include_start=False)
-        ctx.check(p is None, "C11.K", f"{t2.qual}/k-test-after-append@{a.lineno}", t2.loc(a.ast), "after each append the walk tests len(retrieved) >= k_retrieval (or iterates a k-bounded list)",
+        ctx.check(p is None, "C11.K", ctx.okey(f"{t2.qual}/k-test-after-append"), t2.loc(a.ast), "after each append the walk tests len(retrieved) >= k_retrieval (or iterates a k-bounded list)",
                   "a hit can be appended and the loop continue without the k_retrieval test: more than k episodes can be returned", ctx.path_witness(t2, p))
     for kt in ktests:
         tb = [t for t, l in kt.succ if l == "T"][0]
         brk = [m for m in cfg.nodes if m.kind == "stmt" and isinstance(m.ast, ast.Break) and cfg.dominates(tb, m)]
-        ctx.check(bool(brk), "C11.K", f"{t2.qual}/k-test-breaks@{kt.lineno}", t2.loc(kt.ast), "the k test leaves the loop", "the k test does not break")
+        ctx.check(bool(brk), "C11.K", ctx.okey(f"{t2.qual}/k-test-breaks"), t2.loc(kt.ast), "the k test leaves the loop", "the k test does not break")
 
 
 def rule_distinct(ctx) -> None:
@@ -288,12 +288,12 @@ def rule_distinct(ctx) -> None:
     for n, c in apps:
         facts = cfg.facts(n)
         ok = any((not p) and t.endswith("in seen_ids") and "not in" not in t for t, p in facts) or any(p and t.endswith("not in seen_ids") for t, p in facts)
-        ctx.check(ok, "C11.DISTINCT", f"{t2.qual}/seen-test@{n.lineno}", t2.loc(c), "an episode is appended only if its id is not in seen_ids",
+        ctx.check(ok, "C11.DISTINCT", ctx.okey(f"{t2.qual}/seen-test"), t2.loc(c), "an episode is appended only if its id is not in seen_ids",
                   "an episode is appended without the seen-id test: duplicates can be returned")
         adds = [m for m in cfg.nodes if any(call_tail(x) == "add" and src(x.func.value) == "seen_ids" for x in node_calls(m))]
         heads = [h for h in cfg.nodes if h.kind == "iter"]
         p = cfg.path([n], lambda x: x in heads or x is cfg.exit, avoid=lambda x: x in adds, edge_ok=no_exc, include_start=False)
-        ctx.check(p is None, "C11.DISTINCT", f"{t2.qual}/seen-add@{n.lineno}", t2.loc(c), "each append is followed by seen_ids.add(id)", "an appended id is not recorded in seen_ids on some path")
+        ctx.check(p is None, "C11.DISTINCT", ctx.okey(f"{t2.qual}/seen-add"), t2.loc(c), "each append is followed by seen_ids.add(id)", "an appended id is not recorded in seen_ids on some path")
 
 
 def rule_tier(ctx) -> None:
@@ -404,7 +404,7 @@ def rule_perm(ctx) -> None:
                         continue
                 ok = False
                 why = f"`{v.id}` = {src(dv)[:50] if dv is not None else d.kind}"
-        ctx.check(ok, "C11.PERM", f"{fn.qual}/result-from-input@{n.lineno}", fn.loc(n.ast), "the new order is looked up in an id->ref map built from the input list (or is the hybrid reranker's copy)",
+        ctx.check(ok, "C11.PERM", ctx.okey(f"{fn.qual}/result-from-input"), fn.loc(n.ast), "the new order is looked up in an id->ref map built from the input list (or is the hybrid reranker's copy)",
                   f"a rerank layer replaces the result by {why}, which is not drawn from its input")
     for modname in ("clematis.engine.stages.t2.quality", "clematis.engine.stages.t2.quality_ops", "clematis.engine.stages.t2.quality_mmr", "clematis.engine.stages.hybrid"):
         m = ctx.prog.module(modname)
